@@ -11,3 +11,4 @@ import HitenModel.Props.C19
 import HitenModel.Props.C20
 import HitenModel.Props.C20_Tree
 import HitenModel.Props.C11
+import HitenModel.Props.C12
